@@ -70,6 +70,7 @@ const OPS: &[(&str, OpKind)] = &[
     ("create:int", OpKind::Create(0)),
     ("create:dictA", OpKind::Create(2)),
     ("create:stream", OpKind::Create(4)),
+    ("create:stream-of-70000-bytes", OpKind::Create(5)),
     ("create:name", OpKind::Create(1)),
     ("create:typed-value-with-nested-object", OpKind::CreateNested),
     ("update:direct3<-dictA", OpKind::Update(0, 2)),
@@ -103,7 +104,10 @@ fn value(i: usize) -> Val {
         1 => Val::name("New Name"),
         2 => Val::dict(vec![("A", Val::Int(1))]),
         3 => Val::dict(vec![("B", Val::Int(2))]),
-        _ => Val::stream(vec![("S", Val::Int(1))], b"xyz".to_vec()),
+        4 => Val::stream(vec![("S", Val::Int(1))], b"xyz".to_vec()),
+        // a stream that moves everything written after it beyond 64 KiB (the field widths of the cross-reference
+        // stream that `save` writes depend on the largest offset)
+        _ => Val::stream(vec![("S", Val::Int(2))], (0..70_000u32).map(|i| (i * 31 % 251) as u8).collect()),
     }
 }
 fn value_prim(i: usize) -> Primitive {
